@@ -231,3 +231,85 @@ func c13Client(steps int) {
 	}
 	sym.Reach("client-half-done")
 }
+
+// C13EmitRace: three subscribers of one signal on three connections; an emission runs while the
+// middle one unregisters: the other two still get the event exactly once.
+func C13EmitRace() {
+	h := newSignalHandler()
+	h.Activate(Activation{ServiceID: 9, ObjectID: 1})
+	streams := []*zzStream{newZZStream(), newZZStream(), newZZStream()}
+	chans := make([]Channel, 3)
+	for i := range chans {
+		chans[i] = NewChannel(net.NewEndPoint(streams[i]), DefaultCap())
+		msg := zzFrame(net.Call, 9, 1, 0, uint32(10+i), zzRegisterPayload(1, 0x60, uint64(70+i)))
+		sym.Assert(h.RegisterEvent(&msg, chans[i]) == nil, "register-ok")
+	}
+	marks := []int{len(streams[0].sentMessages()), len(streams[1].sentMessages()), len(streams[2].sentMessages())}
+	data := sym.Bytes("emit-data", 1)
+	done := make(chan bool, 2)
+	go func() { h.UpdateSignal(0x60, data); done <- true }()
+	go func() {
+		msg := zzFrame(net.Call, 9, 1, 1, 40, zzRegisterPayload(1, 0x60, 71))
+		h.UnregisterEvent(&msg, chans[1])
+		done <- true
+	}()
+	<-done
+	<-done
+	count := func(c int) int {
+		n := 0
+		for _, f := range streams[c].sentMessages()[marks[c]:] {
+			if f.Header.Type == net.Event {
+				n++
+				sym.Assert(sym.EqBytes(f.Payload, data), "event-payload")
+			}
+		}
+		return n
+	}
+	sym.Assert(count(0) == 1, "first-subscriber-event-count")
+	sym.Assert(count(2) == 1, "last-subscriber-event-count")
+	sym.Assert(count(1) <= 1, "leaving-subscriber-event-count")
+	sym.Reach("emit-race-done")
+}
+
+// C13Resubscribe: repeated subscribe / cancel cycles of one local subscriber on one signal: after
+// every cycle the remote registration is gone, and in every cycle events arrive exactly once.
+func C13Resubscribe() {
+	auth := &zzAuth{user: "u", token: "t"}
+	l := newZZListener()
+	srv, _ := StandAloneServer(l, auth, PrivateNamespace())
+	o := &zzObj{}
+	meta := object.MetaObject{Description: "zz", Signals: map[uint32]object.MetaSignal{200: {Uid: 200, Name: "sig", Signature: "(i)"}}}
+	o.front = NewBasicObject(o, meta, func(string, []byte) error { return nil })
+	service, _ := srv.NewService("emitter", o.front)
+	cs, ss := zzPipe()
+	l.conns <- ss
+	sym.Quiesce()
+	ch := NewChannel(net.NewEndPoint(cs), ClientCap("u", "t"))
+	sym.Assert(ch.Authenticate() == nil, "client-authenticated")
+	proxy := NewProxy(NewClient(ch), object.FullMetaObject(meta), service.ServiceID(), 1)
+	front := o.front.(*stubObject)
+	registrations := func() int {
+		front.signal.signalsMutex.RLock()
+		defer front.signal.signalsMutex.RUnlock()
+		return len(front.signal.signals)
+	}
+	for round := 0; round < 3; round++ {
+		cancel, events, err := proxy.SubscribeID(200)
+		sym.Assert(err == nil, "subscribe-ok")
+		sym.Assert(registrations() == 1, "one-remote-registration-while-subscribed")
+		data := sym.Bytes("emit-data", 1)
+		sym.Assert(o.front.UpdateSignal(200, data) == nil, "emit-ok")
+		sym.Quiesce()
+		got, _ := zzDrainNow(events)
+		sym.Assert(len(got) == 1, "event-exactly-once")
+		if len(got) >= 1 {
+			sym.Assert(sym.EqBytes(got[0], data), "event-payload")
+		}
+		cancel()
+		sym.Quiesce()
+		_, closed := zzDrainNow(events)
+		sym.Assert(closed, "channel-not-closed-after-cancel")
+		sym.Assert(registrations() == 0, "remote-registration-left-behind")
+	}
+	sym.Reach("resubscribe-done")
+}
